@@ -212,6 +212,10 @@ type Ext struct {
 	Ts     []T
 	// Effect: Lean term for the new receiver ("" = none)
 	Effect string
+	// InlineArg > 0: argument number InlineArg of the call is a function literal without parameters that the callee
+	// invokes exactly once: Stmts are emitted, then the body of the literal in place, then After
+	InlineArg int
+	After     []string
 	// Stmts: Lean do-statements emitted for the call before its value is used (%t = a fresh name, shared by
 	// Stmts, Value and Values of this call)
 	Stmts []string
@@ -676,6 +680,14 @@ func subst(tmpl string, recv string, args []string) string {
 }
 
 func (t *tr) findExt(callee string) *Ext {
+	// a configured callee that starts with the name of a local variable is meant for THE variable of that name the
+	// configuration author saw; when the name is bound to a renamed (shadowing) variable the entry does not apply
+	// (use the `_.x` wildcard form, which is given the variable's Lean name)
+	if j := strings.IndexAny(callee, ".[("); j > 0 && callee[0] != '$' && callee[0] != '_' {
+		if l, ok := t.lookup(callee[:j]); ok && l != callee[:j] && !strings.HasSuffix(l, "_") {
+			return nil
+		}
+	}
 	for i := range t.spec.Exts {
 		if t.spec.Exts[i].Callee == callee {
 			return &t.spec.Exts[i]
@@ -850,9 +862,35 @@ func (t *tr) call(c *ast.CallExpr, stmt bool) ([]string, []T) {
 		if wildArg != "" {
 			args = append(args, wildArg)
 		}
-		for _, a := range c.Args {
+		var inlineBody *ast.FuncLit
+		for i, a := range c.Args {
+			if ext.InlineArg == i+1 {
+				fl, ok := a.(*ast.FuncLit)
+				if !ok || (fl.Type.Params != nil && len(fl.Type.Params.List) > 0) {
+					t.fail(c, "argument %d of %s is not a parameterless function literal", i+1, callee)
+				}
+				inlineBody = fl
+				args = append(args, "()")
+				continue
+			}
 			s, _ := t.expr(a)
 			args = append(args, s)
+		}
+		if inlineBody != nil {
+			recv := t.recvName
+			if l, ok := t.lookup(t.recvName); ok {
+				recv = l
+			}
+			for _, st := range ext.Stmts {
+				t.emit("%s", subst(st, recv, args))
+			}
+			t.push()
+			t.block(inlineBody.Body.List)
+			t.pop()
+			for _, st := range ext.After {
+				t.emit("%s", subst(st, recv, args))
+			}
+			return nil, nil
 		}
 		recv := t.recvName
 		if l, ok := t.lookup(t.recvName); ok {
@@ -991,6 +1029,8 @@ func (t *tr) libCall(c *ast.CallExpr, callee string) (string, T, bool) {
 		return "(Bytes.hasPrefix " + arg(0) + " " + arg(1) + ")", tBool, true
 	case "strings.ToUpper":
 		return "(Bytes.toUpper " + arg(0) + ")", tStr, true
+	case "strings.ToLower":
+		return "(GoRt.toLower " + arg(0) + ")", tStr, true
 	case "strings.TrimLeft", "strings.TrimRight":
 		b, ok := t.singleByte(c.Args[1])
 		if !ok {
@@ -2162,6 +2202,21 @@ func (t *tr) assign(x *ast.AssignStmt) {
 				vals = []string{n, n + ".isSome"}
 				ts = []T{ext.T, tBool}
 			}
+		case *ast.TypeAssertExpr: // v, ok := x.(T)
+			ext := t.findExt(calleeText(t.p, r, t.recvName))
+			var wargs []string
+			if ext == nil {
+				var h string
+				if ext, h = t.wildExt(r, ""); ext != nil {
+					wargs = []string{h}
+				}
+			}
+			if ext == nil || len(ext.Values) != 2 {
+				t.fail(x, "type assertion %s", t.p.text(r))
+			}
+			recv, _ := t.lookup(t.recvName)
+			vals = []string{subst(ext.Values[0], recv, wargs), subst(ext.Values[1], recv, wargs)}
+			ts = ext.Ts
 		default:
 			t.fail(x, "multi-value assignment")
 		}
